@@ -434,6 +434,8 @@ func w8String(class, i int) string {
 		n = 1 + i*7%23
 	case 1: // around the TL short/long string boundary, some longer
 		n = []int{1, 2, 3, 4, 5, 250, 251, 252, 253, 254, 255, 256, 257, 300, 1000, 4000}[i%16] + i/16
+	case 3: // equal lengths (equal sizes): used where at most two entries fit, so eviction is order independent
+		n = 8
 	default: // large: a save spans several chunks
 		n = 15000 + i*7919%45000
 	}
@@ -500,6 +502,126 @@ type w8World struct {
 	cur         *w8Getter
 	parked      []*w8Getter
 	lastParkIdx int // string of the last getter that was asked to park (a function of the draws only)
+
+	// a modifier (evicting AddValues or RemoveByTTL) parked between its RUnlock and its Lock. It holds
+	// modifyMu there: until it is released only getters run.
+	tiny   bool // size pressure with at most two entries in the cache: eviction is order independent
+	curMod *w8Mod
+	mod    *w8Mod
+}
+
+const w8EvictPoint = "pcache.evict.before_upgrade"
+
+type w8Mod struct {
+	where    string
+	wantPark bool
+	parkedCh chan struct{}
+	release  chan struct{}
+	done     chan struct{}
+	seen     map[string]uint32 // access times when it parked
+	nowUnix  uint32
+	post     func(raced bool)
+}
+
+// runModifier runs an AddValues/RemoveByTTL call. In runs with concurrent getters it runs on its own
+// goroutine and, if asked, parks at the evict point; post (the checks after the call) then runs when
+// the modifier is released.
+func (w *w8World) runModifier(actor, where string, nowUnix uint32, f func(), post func(raced bool)) {
+	if !w.conc {
+		w.call(where, f)
+		if !w.r.Failed() {
+			post(false)
+		}
+		return
+	}
+	c := w.c
+	m := &w8Mod{where: where, nowUnix: nowUnix, post: post, parkedCh: make(chan struct{}), release: make(chan struct{}), done: make(chan struct{})}
+	// parked only where the outcome is order independent, so that a failure replays
+	m.wantPark = c.Intn(2, "mod_park") == 1 && w.loud
+	burst := c.Intn(3, "mod_burst")
+	w.curMod = m
+	go func() {
+		defer close(m.done)
+		defer w.r.Guard(where + "(concurrent)")
+		f()
+	}()
+	parked := false
+	select {
+	case <-m.parkedCh:
+		parked = true
+	case <-m.done:
+	}
+	w.curMod = nil
+	if w.r.Failed() {
+		if parked {
+			close(m.release)
+			<-m.done
+		}
+		return
+	}
+	if parked {
+		w.mod = m
+		m.seen = map[string]uint32{}
+		for k, e := range w.cache.cache {
+			m.seen[k] = e.accessTS
+		}
+		w.r.Probe("conc_modifier_parked_" + where)
+		w.obs(actor, "%s parked before taking the write lock", where)
+	} else {
+		post(false)
+	}
+	// getters right behind the modifier, preferably of strings it is about to evict (the number of
+	// draws does not depend on whether it parked)
+	for j := 0; j < burst && !w.r.Failed(); j++ {
+		cand := c.Intn(2, "burst_cand")
+		pick := c.Intn(8, "burst_pick")
+		force := -1
+		if w.mod != nil && cand == 1 {
+			if cs := w.evictCandidates(); len(cs) > 0 {
+				force = cs[pick%len(cs)]
+			}
+		}
+		w.now++
+		w.getConc(actor, pick >= 4, force)
+	}
+}
+
+// evictCandidates: strings (by index, ascending) the parked modifier may be about to remove: present
+// and last accessed before the modifier's time.
+func (w *w8World) evictCandidates() []int {
+	var cs []int
+	for i, s := range w.strs {
+		if e, ok := w.cache.cache[s]; ok && e.accessTS < w.mod.nowUnix {
+			cs = append(cs, i)
+		}
+	}
+	return cs
+}
+
+// finishModifier releases the parked modifier (if any) and runs its checks.
+func (w *w8World) finishModifier() {
+	m := w.mod
+	if m == nil {
+		return
+	}
+	w.mod = nil
+	raced := false
+	for k, e := range w.cache.cache {
+		if ts, ok := m.seen[k]; ok && ts != e.accessTS {
+			raced = true
+		}
+	}
+	close(m.release)
+	<-m.done
+	if w.r.Failed() {
+		return
+	}
+	w.r.Probe("conc_modifier_released")
+	if raced {
+		w.r.Probe("conc_modifier_released_after_getter_refreshed_an_entry")
+	}
+	w.obs("world", "%s released raced=%v", m.where, raced)
+	m.post(raced)
 }
 
 const w8GetPoint = "pcache.get.before_upgrade"
@@ -522,6 +644,16 @@ type w8Getter struct {
 
 // onPoint runs on the getter's goroutine, no lock held.
 func (w *w8World) onPoint(name string) {
+	if name == w8EvictPoint {
+		m := w.curMod
+		if m == nil || !m.wantPark {
+			return
+		}
+		m.wantPark = false
+		m.parkedCh <- struct{}{}
+		<-m.release
+		return
+	}
 	g := w.cur
 	if g == nil || !g.wantPark || name != w8GetPoint {
 		return
@@ -646,6 +778,11 @@ func (w *w8World) releaseAll(sig string) {
 
 // abandonGetters lets leftover goroutines finish at the end of a failed run.
 func (w *w8World) abandonGetters() {
+	if m := w.mod; m != nil {
+		w.mod = nil
+		close(m.release)
+		<-m.done
+	}
 	for _, g := range w.parked {
 		w.finishGetter(g)
 	}
@@ -653,7 +790,7 @@ func (w *w8World) abandonGetters() {
 }
 
 // getConc: GetValue/GetValueBytes on its own goroutine, possibly parked between RUnlock and TryLock.
-func (w *w8World) getConc(actor string, bytesAPI bool) {
+func (w *w8World) getConc(actor string, bytesAPI bool, force int) {
 	r, c := w.r, w.c
 	i := c.Intn(len(w.strs)+2, "get_str")
 	known := c.Intn(1<<10, "get_known")
@@ -675,6 +812,9 @@ func (w *w8World) getConc(actor string, bytesAPI bool) {
 		i = w.lastParkIdx
 	}
 	ts := w.now - w.lag[actorIdx(actor)]
+	if force >= 0 {
+		i, ts = force, w.now
+	}
 	g := &w8Getter{idx: i, actor: actor, ts: ts, bytesAPI: bytesAPI, wantPark: park == 1 && i < len(w.strs) && len(w.parked) < 3}
 	if park == 1 && i < len(w.strs) {
 		w.lastParkIdx = i
@@ -776,7 +916,9 @@ func (w *w8World) checkState(sig string) {
 	if n != 0 {
 		wantAvg = float64(ts) / float64(n)
 	}
-	if el != n || sumSize != size || avg != wantAvg {
+	// the sums themselves are compared too (white-box): with an empty cache Stats() shows no average,
+	// but a sumTS left over from removed entries spoils every later average
+	if el != n || sumSize != size || avg != wantAvg || c.sumTS != ts || c.sumSize != size {
 		r.Fail(w8Prop, "accounting", sig, "after %s: Stats() says elements=%d sumSize=%d averageTS=%v, recomputed over the map: elements=%d sumSize=%d averageTS=%v (sumTS field %d vs %d)", sig, el, sumSize, avg, n, size, wantAvg, c.sumTS, ts)
 		return
 	}
@@ -946,6 +1088,9 @@ func (w *w8World) verifyFile(what string, adopt bool, readFailAt int) {
 
 func (w *w8World) save(actor string) {
 	r, c, d := w.r, w.c, w.disk
+	if w.finishModifier(); r.Failed() {
+		return
+	}
 	plan := w8DrawFault(c, w.faulty)
 	r.Sched("save", actor)
 	r.Event(actor, "Save fault=%d at=%d tear=%d", plan.kind, plan.at, plan.tear)
@@ -990,6 +1135,9 @@ func (w *w8World) save(actor string) {
 
 func (w *w8World) restart(what string, dmg, pos, bit, readFailAt int) {
 	d := w.disk
+	if w.finishModifier(); w.r.Failed() {
+		return
+	}
 	if w.releaseAll("get-released"); w.r.Failed() {
 		return
 	}
@@ -1023,6 +1171,7 @@ func (w *w8World) restart(what string, dmg, pos, bit, readFailAt int) {
 
 func (w *w8World) addValues(actor string, dups bool) {
 	r, c := w.r, w.c
+	w.finishModifier()
 	n := 1 + c.Intn(6, "batch")
 	pairs := make([]MappingPair, 0, n)
 	hasDup := false
@@ -1088,9 +1237,19 @@ func (w *w8World) addValues(actor string, dups bool) {
 	ts := w.now - w.lag[actorIdx(actor)]
 	r.Sched("add", actor)
 	r.Event(actor, "AddValues t=%d %v", ts, desc)
-	var before, after int64
+	var before int64
 	w.call("Stats", func() { _, before, _, _, _, _, _ = w.cache.Stats() })
-	w.call("AddValues", func() { w.cache.AddValues(ts, pairs) })
+	if r.Failed() {
+		return
+	}
+	w.runModifier(actor, "AddValues", ts, func() { w.cache.AddValues(ts, pairs) }, func(raced bool) {
+		w.afterAdd(actor, before, hasDup, raced)
+	})
+}
+
+func (w *w8World) afterAdd(actor string, before int64, hasDup, raced bool) {
+	r := w.r
+	var after int64
 	w.call("Stats", func() { _, after, _, _, _, _, _ = w.cache.Stats() })
 	if r.Failed() {
 		return
@@ -1099,6 +1258,9 @@ func (w *w8World) addValues(actor string, dups bool) {
 	if hasDup {
 		sig = "dup_in_batch"
 		r.Probe("batch_with_inner_duplicate")
+	}
+	if raced {
+		sig = "evict-raced-with-getter"
 	}
 	limit := w.maxSize
 	if before > limit {
@@ -1197,6 +1359,11 @@ func w8Cache(r *verifsim.Run) {
 	case w.conc: // few strings, so that getters and modifiers meet on the same one; no storage faults
 		n = 2 + c.Intn(5, "nstr")
 		w.faulty = false
+		if w.tiny = c.Intn(2, "tiny_pressure") == 1; w.tiny {
+			// equal sized strings and room for two and a half of them: AddValues evicts, and with at
+			// most two entries every entry is an eviction candidate, so the outcome is order independent
+			regime, class, n = 0, 3, n+1
+		}
 	case class == 2:
 		n = 16 + c.Intn(30, "nstr")
 	default:
@@ -1238,7 +1405,11 @@ func w8Cache(r *verifsim.Run) {
 		w.maxSize = total * int64(1+c.Intn(3, "size_quarters")) / 4
 		w.det = c.Intn(2, "production_order") == 0
 	}
+	if w.tiny {
+		w.maxSize = elementSizeMem(w.strs[0]) * 5 / 2
+	}
 	size0 := w.maxSize
+	r.Config["tiny_pressure"] = w.tiny
 	r.Config["mode"] = "cache"
 	r.Config["regime"] = regime
 	r.Config["faulty"] = w.faulty
@@ -1268,7 +1439,10 @@ func w8Cache(r *verifsim.Run) {
 				k := c.Intn(8, "release_idx")
 				r.Sched("release", actor)
 				r.Event(actor, "release parked getter %d", k)
-				if len(w.parked) > 0 {
+				switch {
+				case w.mod != nil && (k%2 == 0 || len(w.parked) == 0):
+					w.finishModifier()
+				case len(w.parked) > 0:
 					w.releaseOne(k%len(w.parked), "get-released")
 				}
 				continue
@@ -1276,30 +1450,36 @@ func w8Cache(r *verifsim.Run) {
 		}
 		switch k := c.Intn(16, "op"); {
 		case k == 11 || (w.conc && (k == 13 || k == 3)):
+			if w.finishModifier(); r.Failed() {
+				break
+			}
 			if w.conc && k == 3 && w.maxTTL > 0 {
 				// let everything expire, so that the string of a parked getter is evicted under it
 				w.now += uint32(w.maxTTL) + 1 + w.lag[1]
 				r.Event("clock", "now=%d", w.now)
 			}
 			maxCount := n + 5
-			if regime != 0 {
+			if !w.loud {
 				maxCount = []int{n + 5, 1, 3}[c.Intn(3, "ttl_maxcount")]
 			}
 			ts := w.now - w.lag[actorIdx(actor)]
 			r.Sched("removettl", actor)
 			r.Event(actor, "RemoveByTTL max=%d t=%d", maxCount, ts)
-			w.call("RemoveByTTL", func() { w.cache.RemoveByTTL(maxCount, ts) })
-			if !r.Failed() {
+			w.runModifier(actor, "RemoveByTTL", ts, func() { w.cache.RemoveByTTL(maxCount, ts) }, func(raced bool) {
 				w.noteParked()
 				w.obs(actor, "RemoveByTTL -> entries=%d", len(w.cache.cache))
-				w.checkState("removettl")
-			}
+				if raced {
+					w.checkState("evict-raced-with-getter")
+				} else {
+					w.checkState("removettl")
+				}
+			})
 		case k <= 2 || (k == 3 && !w.conc):
 			w.addValues(actor, dups)
 		case k >= 4 && k <= 6 && w.conc:
-			w.getConc(actor, false)
+			w.getConc(actor, false, -1)
 		case k >= 7 && k <= 8 && w.conc:
-			w.getConc(actor, true)
+			w.getConc(actor, true, -1)
 		case k <= 6:
 			w.get(actor, false)
 		case k <= 8:
@@ -1310,6 +1490,11 @@ func w8Cache(r *verifsim.Run) {
 			r.Sched("tick", "clock")
 			r.Event("clock", "now=%d", w.now)
 		case k == 12:
+			if w.finishModifier(); r.Failed() {
+				break
+			}
+			// (not with tiny pressure: a cache above a lowered limit frees ~0.1% per call starting from a
+			// single entry in map order, which would make outcomes order dependent there)
 			if regime != 0 {
 				w.maxSize = []int64{size0, size0 / 2, size0 / 4, 1}[c.Intn(4, "newsize")]
 			}
@@ -1334,6 +1519,9 @@ func w8Cache(r *verifsim.Run) {
 			}
 			w.restart("restart", dmg, pos, bit, rf)
 		}
+	}
+	if !r.Failed() {
+		w.finishModifier()
 	}
 	if !r.Failed() {
 		w.releaseAll("get-released")
